@@ -157,6 +157,14 @@ Proof.
     try apply forallb_repeat_idle; try (apply forallb_idle_quiet, forallb_repeat_idle).
 Qed.
 
+Ltac bool_hyps :=
+  repeat match goal with
+         | H : Nat.leb _ _ = true |- _ => apply Nat.leb_le in H
+         | H : _ && _ = true |- _ => apply andb_true_iff in H; destruct H
+         | H : negb _ = true |- _ => apply negb_true_iff in H
+         | H : negb _ = false |- _ => apply negb_false_iff in H
+         end.
+
 Ltac fin1_leaf :=
   first [ assumption | lia | congruence | discriminate
         | exfalso; eapply app_ne_nil; eassumption
@@ -180,12 +188,12 @@ Ltac use_rpc :=
 Ltac fwd_asm :=
   repeat match goal with
          | H : _ /\ _ |- _ => destruct H
-         | H : ?A -> _, HA : ?A |- _ => specialize (H HA)
+         | H : ?A -> _, HA : ?A |- _ => match type of A with Prop => specialize (H HA) end
          end.
 
 Ltac fin1 :=
   use_rpc; unfold Inv1P in *; sproj; hsimp; cbn [init_pc early_pc] in *;
-  repeat match goal with H : Nat.leb _ _ = true |- _ => apply Nat.leb_le in H end;
+  bool_hyps;
   repeat match goal with H : _ /\ _ |- _ => destruct H end;
   match goal with H : sh_start ?s <= 3 |- _ => destruct (le_lt_dec 3 (sh_start s)) end;
   fwd; try solve [exfalso; congruence]; repeat (split || intro); fwd_asm; fin1_leaf.
@@ -222,6 +230,296 @@ Proof.
   intros Hi H. step_inv H.
   all: try match goal with |- Inv1 (settle _ _) => apply settle_Inv1 end.
   all: nth_facts.
-  all: try solve [fin1].
-  all: match goal with |- ?x => idtac x end.
-Abort.
+  all: solve [fin1].
+Qed.
+
+(* ================================================================== *)
+(* 3. InvW: what was written is a prefix of what was enqueued            *)
+(* ================================================================== *)
+
+Definition InvW (s : shell) : Prop :=
+  match sh_wpc s with
+  | WNotStarted | WWait => map snd (puts_of (sh_hist s)) = written_of (sh_hist s) ++ sh_outq s
+  | WHand l => map snd (puts_of (sh_hist s)) = written_of (sh_hist s) ++ l :: sh_outq s
+  | WIoHand | WDead => exists x, map snd (puts_of (sh_hist s)) = written_of (sh_hist s) ++ x
+  end.
+
+Lemma settle_frameW : forall todo s,
+  sh_wpc (settle s todo) = sh_wpc s /\ sh_outq (settle s todo) = sh_outq s /\
+  puts_of (sh_hist (settle s todo)) = puts_of (sh_hist s) /\
+  written_of (sh_hist (settle s todo)) = written_of (sh_hist s).
+Proof.
+  induction todo as [|ln rest IH]; intros s.
+  - cbn [settle]. destruct (sh_stop s); sproj; hsimp; repeat split.
+  - settle_cases s ln IH.
+    all: try solve [sproj; hsimp; repeat split].
+    all: match goal with |- context [settle ?x _] => destruct (IH x) as (E1 & E2 & E3 & E4) end.
+    all: rewrite E1, E2, E3, E4; sproj; hsimp; repeat split.
+Qed.
+
+Lemma settle_InvW s todo : InvW s -> InvW (settle s todo).
+Proof.
+  unfold InvW. destruct (settle_frameW todo s) as (E1 & E2 & E3 & E4).
+  rewrite E1, E2, E3, E4. exact (fun H => H).
+Qed.
+
+Lemma InvW_init k h n : InvW (shell_init k h n).
+Proof. reflexivity. Qed.
+
+Ltac finW_leaf :=
+  first [ assumption
+        | eexists; eassumption
+        | match goal with H : _ = _ ++ _ |- _ => rewrite H; rewrite <- ?app_assoc; cbn [app]; reflexivity end
+        | match goal with H : _ = _ ++ _ |- _ => eexists; rewrite H; rewrite <- ?app_assoc; cbn [app]; reflexivity end
+        | match goal with H : _ = _ ++ _ |- _ => rewrite <- ?app_assoc; cbn [app]; exact H end
+        | idtac ].
+
+Ltac finW :=
+  unfold InvW in *; sproj; hsimp; rewrite ?map_app; cbn [map snd];
+  repeat match goal with
+         | Hw : sh_wpc ?s = _, Hi : context [sh_wpc ?s] |- _ => rewrite Hw in Hi
+         | Hw : sh_outq ?s = _, Hi : context [sh_outq ?s] |- _ => rewrite Hw in Hi
+         end;
+  try match goal with |- context [match sh_wpc ?s with _ => _ end] => destruct (sh_wpc s) end;
+  try match goal with H : exists _, _ |- _ => destruct H end;
+  finW_leaf.
+
+Lemma InvW_step s th a s' : Inv1 s -> InvW s -> step s th a = Some s' -> InvW s'.
+Proof.
+  intros Hi1 Hi H. step_inv H.
+  all: try match goal with |- InvW (settle _ _) => apply settle_InvW end.
+  all: try solve [finW].
+  destruct Hi1 as (_ & _ & _ & Hw & _).
+  assert (Hn : sh_wpc s = WNotStarted) by (apply Hw; lia).
+  unfold InvW in *. rewrite Hn in Hi. sproj. exact Hi.
+Qed.
+
+(* ================================================================== *)
+(* 4. InvG: the initialization gate                                     *)
+(* ================================================================== *)
+
+Definition gate_rest (data : bool) (st : gate_st) : Prop :=
+  match st with
+  | GNone | GListenerDone | GInitDone false => True
+  | GInitDone true => data = false
+  | GInInit | GInListener => False
+  end.
+
+Definition gate_link (data : bool) (st : gate_st) (p : rpc) : Prop :=
+  match p with
+  | RInitB _ _ => st = GNone
+  | RInitE _ _ => st = GInInit
+  | RLisB _ _ => st = GInitDone true /\ data = true
+  | RLisE _ _ => st = GInListener
+  | _ => gate_rest data st
+  end.
+
+Definition is_initcall (e : sevent) : bool := match e with ECallB _ CInit => true | _ => false end.
+Definition callb_or_submit (e : sevent) : bool := match e with ECallB _ _ | ESubmit _ _ => true | _ => false end.
+
+Definition InvGP (p : rpc) (s : shell) (st : gate_st) (os : bool) : Prop :=
+  (forall es, gate_ok_from (is_data s) GNone false (sh_hist s ++ es) = gate_ok_from (is_data s) st os es) /\
+  gate_link (is_data s) st p /\
+  (os = true -> sh_njobs s <> 0) /\
+  (sh_init_expected s = true -> st = GNone /\ existsb callb_or_submit (sh_hist s) = false) /\
+  count is_initcall (sh_hist s) = match st with GNone => 0 | _ => 1 end.
+
+Definition InvG (s : shell) : Prop := exists st os, InvGP (sh_rpc s) s st os.
+
+Lemma InvG_init k h n : InvG (shell_init k h n).
+Proof.
+  exists GNone, false. unfold InvGP. cbn. repeat split; try discriminate. 
+Qed.
+
+Lemma count_app {A} (f : A -> bool) l1 l2 : count f (l1 ++ l2) = count f l1 + count f l2.
+Proof. unfold count. rewrite filter_app, app_length. reflexivity. Qed.
+
+Ltac finG_leaf :=
+  first [ assumption | lia | congruence | discriminate | reflexivity
+        | match goal with
+          | H : forall es, _ = _ |- _ = _ =>
+              rewrite <- ?app_assoc; cbn [app]; rewrite H; cbn [gate_ok_from negb andb];
+              repeat match goal with Hd : _ = true |- _ => rewrite Hd | Hd : _ = false |- _ => rewrite Hd end;
+              reflexivity
+          end
+        | idtac ].
+
+Ltac foldd :=
+  unfold is_data in *; sproj;
+  match goal with
+  | |- context [match sh_kind ?s with KData => true | KMeta => false end] =>
+      set (d := match sh_kind s with KData => true | KMeta => false end) in *
+  | _ => idtac
+  end.
+
+Ltac finG :=
+  unfold InvGP in *; sproj; foldd;
+  repeat match goal with H : _ /\ _ |- _ => destruct H end;
+  rewrite ?count_app, ?existsb_app, ?orb_false_r;
+  cbn [count filter length is_initcall existsb callb_or_submit orb gate_link gate_rest] in *;
+  rewrite ?orb_false_r, ?Nat.add_0_r;
+  repeat (split || intro); fwd_asm; finG_leaf.
+
+Lemma settle_InvG : forall todo s st os,
+  InvGP RRecv s st os -> InvGP (sh_rpc (settle s todo)) (settle s todo) st os.
+Proof.
+  induction todo as [|ln rest IH]; intros s st os H.
+  - cbn [settle]. destruct (sh_stop s); finG.
+  - settle_cases s ln IH.
+    all: solve [finG].
+Qed.
+
+Lemma InvG_settle s todo : (exists st os, InvGP RRecv s st os) -> InvG (settle s todo).
+Proof. intros (st & os & H). exists st, os. apply settle_InvG. exact H. Qed.
+
+Ltac pickG st os :=
+  match goal with
+  | |- context [ECallB ThReader CInit] => exists GInInit, os
+  | |- context [ECallE ThReader CInit ?ok] => exists (GInitDone ok), os
+  | |- context [ECallB ThReader CSetListener] => exists GInListener, os
+  | |- context [ECallE ThReader CSetListener _] => exists GListenerDone, os
+  | |- context [ECallB (ThWorker _) COther] => exists st, true
+  | |- _ => exists st, os
+  end.
+
+(* facts of Inv1 made available to the gate proof *)
+Ltac inv1_facts Hi1 :=
+  use_rpc; unfold Inv1P in Hi1; cbn [init_pc early_pc] in Hi1;
+  bool_hyps; fwd.
+
+Lemma busy_facts s w j k ic dn :
+  Inv1 s -> nth_error (sh_workers s) w = Some (KBusy j k ic dn) ->
+  sh_njobs s <> 0 /\ init_pc (sh_rpc s) = false /\ sh_init_expected s = false.
+Proof.
+  intros Hi Hn. unfold Inv1, Inv1P in Hi.
+  destruct Hi as (_ & _ & _ & _ & _ & _ & Hp & Hie & Hpc).
+  assert (Hnj : sh_njobs s <> 0).
+  { intros E. destruct (Hp E) as [_ Hq]. pose proof (forallb_nth _ _ _ _ Hq Hn) as Hx. discriminate Hx. }
+  split; [exact Hnj|]. split.
+  - destruct (init_pc (sh_rpc s)); [|reflexivity]. destruct Hpc as [E _]; [reflexivity|]. contradiction.
+  - destruct (sh_init_expected s); [|reflexivity]. destruct Hie as [E _]; [reflexivity|]. contradiction.
+Qed.
+
+Lemma gate_link_rest d st p : gate_link d st p -> init_pc p = false -> gate_rest d st.
+Proof. destruct p; cbn [gate_link init_pc]; intros H E; try discriminate E; exact H. Qed.
+
+Lemma InvG_step s th a s' : Inv1 s -> InvG s -> step s th a = Some s' -> InvG s'.
+Proof.
+  intros Hi1 (st & os & Hi) H. step_inv H.
+  all: try match goal with |- InvG (settle _ _) => apply InvG_settle end.
+  all: unfold InvG; pickG st os.
+  all: try match goal with Hr : sh_rpc _ = _ |- _ => rewrite Hr in Hi end.
+  all: try solve [finG].
+  all: try match goal with
+           | Hn : nth_error _ _ = Some (KBusy _ _ _ _) |- _ =>
+               destruct (busy_facts _ _ _ _ _ _ Hi1 Hn) as (Hnj & Hpc & Hie);
+               let Hl := fresh "Hl" in
+               assert (Hl : gate_rest (is_data s) st) by (apply (gate_link_rest _ _ (sh_rpc s)); [apply Hi|exact Hpc]);
+               clear Hi1
+           end.
+  all: try (nth_facts; inv1_facts Hi1).
+  all: try match goal with Hr : sh_rpc _ = _ |- _ => rewrite Hr in Hi end.
+  all: try solve [finG].
+  all: destruct st as [| |[|]| |]; try solve [finG].
+  all: destruct os; try solve [finG].
+Qed.
+
+(* ================================================================== *)
+(* 5. InvR: the init reply comes first and once                          *)
+(* ================================================================== *)
+
+Definition cnt_ir (h : list sevent) : nat := count (fun p => is_init_reply (snd p)) (puts_of h).
+
+Definition InvRP (p : rpc) (s : shell) (seen : bool) : Prop :=
+  (forall es, init_reply_first_from false (sh_hist s ++ es) = init_reply_first_from seen es) /\
+  (seen = true -> sh_njobs s <> 0) /\
+  cnt_ir (sh_hist s) <= 1 /\
+  (sh_init_expected s = true -> cnt_ir (sh_hist s) = 0) /\
+  (init_pc p = true -> cnt_ir (sh_hist s) = 0).
+
+Definition InvR (s : shell) : Prop := exists seen, InvRP (sh_rpc s) s seen.
+
+Lemma InvR_init k h n : InvR (shell_init k h n).
+Proof. exists false. unfold InvRP. cbn. repeat split; try discriminate; try lia; reflexivity. Qed.
+
+Ltac finR_leaf :=
+  first [ assumption | lia | congruence | discriminate | reflexivity
+        | match goal with
+          | H : forall es, _ = _ |- _ = _ =>
+              rewrite <- ?app_assoc; cbn [app]; rewrite H; cbn [init_reply_first_from negb andb]; reflexivity
+          end
+        | idtac ].
+
+Ltac finR :=
+  unfold InvRP, cnt_ir in *; sproj; hsimp;
+  repeat match goal with H : _ /\ _ |- _ => destruct H end;
+  rewrite ?count_app;
+  cbn [count filter length is_init_reply snd init_pc] in *;
+  rewrite ?Nat.add_0_r;
+  repeat (split || intro); fwd_asm; finR_leaf.
+
+Lemma settle_InvR : forall todo s seen,
+  InvRP RRecv s seen -> InvRP (sh_rpc (settle s todo)) (settle s todo) seen.
+Proof.
+  induction todo as [|ln rest IH]; intros s seen H.
+  - cbn [settle]. destruct (sh_stop s); finR.
+  - settle_cases s ln IH.
+    all: solve [finR].
+Qed.
+
+Lemma InvR_settle s todo : (exists seen, InvRP RRecv s seen) -> InvR (settle s todo).
+Proof. intros (seen & H). exists seen. apply settle_InvR. exact H. Qed.
+
+Ltac pickR seen :=
+  match goal with
+  | |- context [put _ (ThWorker _) (OReply _)] => exists true
+  | |- _ => exists seen
+  end.
+
+Lemma InvR_step s th a s' : Inv1 s -> InvR s -> step s th a = Some s' -> InvR s'.
+Proof.
+  intros Hi1 (seen & Hi) H. step_inv H.
+  all: try match goal with |- InvR (settle _ _) => apply InvR_settle end.
+  all: unfold InvR; pickR seen.
+  all: try match goal with Hr : sh_rpc _ = _ |- _ => rewrite Hr in Hi end.
+  all: try solve [finR].
+  all: try match goal with
+           | Hn : nth_error _ _ = Some (KBusy _ _ _ _) |- _ =>
+               destruct (busy_facts _ _ _ _ _ _ Hi1 Hn) as (Hnj & Hpc & Hie); clear Hi1
+           end.
+  all: try (nth_facts; inv1_facts Hi1).
+  all: try match goal with Hr : sh_rpc _ = _ |- _ => rewrite Hr in Hi end.
+  all: try solve [finR].
+  all: destruct seen; try solve [finR].
+Qed.
+
+(* ================================================================== *)
+(* 6. the assembled invariant along runs                                *)
+(* ================================================================== *)
+
+Definition Inv (s : shell) : Prop := Inv1 s /\ InvW s /\ InvG s /\ InvR s.
+
+Lemma Inv_init k h n : Inv (shell_init k h n).
+Proof.
+  split; [apply Inv1_init|]. split; [apply InvW_init|]. split; [apply InvG_init|apply InvR_init].
+Qed.
+
+Lemma Inv_step s th a s' : Inv s -> step s th a = Some s' -> Inv s'.
+Proof.
+  intros (H1 & HW & HG & HR) Hs.
+  split; [eapply Inv1_step; eassumption|].
+  split; [eapply InvW_step; eassumption|].
+  split; [eapply InvG_step; eassumption|eapply InvR_step; eassumption].
+Qed.
+
+Lemma Inv_run : forall ls s0 s, Inv s0 -> run s0 ls = Some s -> Inv s.
+Proof.
+  induction ls as [|[th a] ls IH]; intros s0 s Hi Hr; cbn [run] in Hr.
+  - inversion Hr; subst; exact Hi.
+  - destruct (step s0 th a) as [s1|] eqn:Hs; [|discriminate].
+    eapply IH; [|exact Hr]. eapply Inv_step; eassumption.
+Qed.
+
+Lemma sreach_Inv k h n s : sreach k h n s -> Inv s.
+Proof. intros [ls Hr]. eapply Inv_run; [apply Inv_init|exact Hr]. Qed.
+
